@@ -12,7 +12,7 @@ PROPERTY = 'C15'
 META = {
     'level': 'exploration',
     'technique': 'rule oracle over enumerated (personality x request route path x service) combinations with an access-counting Attribute subclass; printer/parser round trip for textual route and connection paths',
-    'text': 'Personalities include a router with a route table; every personality is probed with its own link spelt in the other kind (5 vs "5"); addresses in non-canonical spellings must denote the canonical segments in text, JSON and --route-path; the route path an operation spells through the client API (None = default 1/0, False/[] = none, with and without an explicit send path) must be the one the simulator judges. Personalities none / simple / single-segment (numeric, extended-port, IPv4 and IPv6 links) / multi-segment are configured in-process (UCMM_class) and through main(--route-path, -S) '
+    'text': 'A session that the simulator does not open at all is an outcome of the request (judged like a refusal), not a harness failure. Personalities include a router with a route table; every personality is probed with its own link spelt in the other kind (5 vs "5"); addresses in non-canonical spellings must denote the canonical segments in text, JSON and --route-path; the route path an operation spells through the client API (None = default 1/0, False/[] = none, with and without an explicit send path) must be the one the simulator judges. Personalities none / simple / single-segment (numeric, extended-port, IPv4 and IPv6 links) / multi-segment are configured in-process (UCMM_class) and through main(--route-path, -S) '
             'over TCP. Each receives Read Tag, Write Tag, Get Attribute Single and Multiple Service Packet requests bare (no Unconnected Send), with an empty route path, with exactly the configured '
             'path and with paths differing in port, link, link kind, length or extended port. Accept/refuse must equal the rule of the statement; a refused request must carry a non-zero status and '
             'the instrumented Attribute must record no read or write; accepted ones must be served correctly. Route paths and connection paths in every documented text form are printed by the '
